@@ -2082,7 +2082,8 @@ def check_acf_case(run, c, k, impl_lines, scratch, model):
                 if la != lb:
                     run.violation(sig + ":lag", "row labelled with lag %d holds the value accumulated for lag %d" % (la, lb), replay)
                     break
-                if not close(va, vb, 1e-9 if c["type"] == "coordinate_p2" else OTOL):
+                scale_ = max([abs(q[1]) for q in orows] + [1e-300])     # a correlation that is exactly 0 is written as rounding noise
+                if not close(va, vb, 1e-9 if c["type"] == "coordinate_p2" else OTOL) and abs(va - vb) > 1e-13 * scale_:
                     run.violation(sig + ":value", "C(%d) written as %r, the documented %scorrelation over the %d time origins is %r"
                                   % (la, va, "normalised " if c["norm"] else "", n, vb), replay)
                     break
@@ -2090,8 +2091,9 @@ def check_acf_case(run, c, k, impl_lines, scratch, model):
     if [a for a, _ in irows] != [a for a, _ in mrows]:
         run.mismatch("acf:lags", c, [a for a, _ in irows], [a for a, _ in mrows])
         return 0
+    mscale = max([abs(q[1]) for q in mrows] + [1e-300])
     for (la, va), (lb, vb) in zip(irows, mrows):
-        if not close(va, vb, 1e-10):
+        if not close(va, vb, 1e-10) and abs(va - vb) > 1e-13 * mscale:
             run.mismatch("acf:value", c, (la, va), (lb, vb))
     return len(irows)
 
